@@ -9,6 +9,14 @@
 pub mod vlib;
 #[path = "../../engine_k/h_core/src/c19_ops.rs"]
 pub mod c19_ops;
+pub mod zk {
+    pub use zerokit_utils::merkle_tree::{Hasher, ZerokitMerkleProof, ZerokitMerkleTree};
+}
+#[path = "../../engine_k/vlib/tree_body.rs"]
+pub mod tree_body;
+#[path = "../../engine_k/vlib/toy.rs"]
+pub mod toy;
+pub mod trees;
 
 use std::panic;
 use vlib::Src;
@@ -69,7 +77,7 @@ fn dispatch(name: &str, s: &mut TapeSrc) -> bool {
         "c19_fr_neg" => c19_ops::body_neg_fr(s),
         "c19_fr_terncond" => c19_ops::body_terncond_fr(s),
         "c19_fr_divmod" => c19_ops::body_divmod_fr(s),
-        _ => return false,
+        _ => return trees::dispatch(name, s),
     }
     true
 }
